@@ -169,8 +169,10 @@ def route_steps(rng, legs, tag):
     while len(live) > 1:
         names = sorted(live)
         cands = [(a, b) for i, a in enumerate(names) for b in names[i + 1:] if set(live[a]) & set(live[b])]
-        if not cands:
-            cands = [(a, b) for i, a in enumerate(names) for b in names[i + 1:]]
+        if not cands or (len(names) >= 3 and rng.random() < 0.12):
+            # any pair, bonded or not: a step may be an outer product (zero contracted axes)
+            cands = [(a, b) for i, a in enumerate(names) for b in names[i + 1:]
+                     if len(live[a]) + len(live[b]) <= 6] or cands
         a, b = rng.choice(cands)
         if rng.random() < 0.5:
             a, b = b, a
@@ -272,9 +274,66 @@ def halves_route(legs, k, tag, ket_first):
     return steps, contract(a, b, f"{tag}Z")
 
 
+def rebuild_case(rng):
+    """an intermediate that subsumes two odd tensors (even parity, two labels) is re-materialised through the
+    constructor / from_blocks with its own label list, then contracted with a third odd tensor whose label
+    sorts between the two: the rebuilt route must equal the direct one (value, sign, labels)."""
+    import symmray as sr
+
+    sym = rng.choice(gen.SYMS)
+    static = rng.random() < 0.7
+    dtype = rng.choice(["float64", "complex128"])
+    l1, l3 = sorted(rng.sample(range(1, 40), 2))
+    if l3 - l1 < 2:
+        l3 = l1 + 2
+    l2 = rng.randint(l1 + 1, l3 - 1)
+    i_ab = gen.rand_index(rng, sym, max_charges=2, max_size=2)
+    i_bc = gen.rand_index(rng, sym, max_charges=2, max_size=2)
+    pa, pc = (gen.rand_index(rng, sym, max_charges=2, max_size=2) for _ in range(2))
+    A = gen.rand_array(rng, sym, indices=[pa, i_ab], fermi=True, static=static, dtype=dtype, keep=1.0, parity=1,
+                       label=l1, pending=rng.random() < 0.3)
+    B = gen.rand_array(rng, sym, indices=[i_ab.conj(), i_bc], fermi=True, static=static, dtype=dtype, keep=1.0,
+                       parity=1, label=l3, pending=rng.random() < 0.3)
+    C = gen.rand_array(rng, sym, indices=[i_bc.conj(), pc], fermi=True, static=static, dtype=dtype, keep=1.0,
+                       parity=1, label=l2)
+    env = {"T0": A, "T1": B, "T2": C}
+    steps = [{"out": ["ab"], "op": "tensordot", "in": ["T0", "T1"], "params": {"axes": [[1], [0]], "mode": "auto"}},
+             {"out": ["abc"], "op": "tensordot", "in": ["ab", "T2"], "params": {"axes": [[1], [0]], "mode": "auto"}}]
+    res, env2 = impl.run_prog(env, steps)
+    orc = None
+    meta = dict(sym=sym, static=static, shape="rebuild", pending=bool(A.phases or B.phases),
+                nodd=sum(int(t.parity) for t in (A, B, C)))
+    if not all("ok" in r for r in res):
+        orc = "contraction raised: " + str([r.get("msg") for r in res if "raise" in r][:1])
+    elif A.parity and B.parity and C.parity and env2["ab"].blocks:
+        T = env2["ab"].phase_sync()
+        ref = ser.canon_array(ser.enc_array(env2["abc"]), tables=False)
+        kw = dict(gen.array_class(sym, True, static)[1])
+        try:
+            builds = {
+                "constructor": type(T)(indices=T.indices, charge=T.charge, blocks=dict(T.blocks),
+                                       oddpos=list(T.oddpos), **kw),
+                "from_blocks": type(T).from_blocks(dict(T.blocks), [ix.dual for ix in T.indices], charge=T.charge,
+                                                   oddpos=list(T.oddpos), **kw),
+            }
+            for how, T2 in builds.items():
+                if [(o.label, o.dual) for o in T2.oddpos] != [(o.label, o.dual) for o in T.oddpos]:
+                    orc = (f"an even array rebuilt through {how} with its label list {list(T.oddpos)} carries "
+                           f"{list(T2.oddpos)}")
+                    break
+                got = ser.canon_array(ser.enc_array(sr.tensordot(T2, C, ((1,), (0,)), preserve_array=True)), tables=False)
+                if got != ref:
+                    orc = f"route through the intermediate rebuilt by {how} differs from the direct route (value, sign or labels)"
+                    break
+        except Exception as e:  # noqa
+            orc = f"rebuilding an intermediate with its label list raised {type(e).__name__}: {e}"
+    return dict(case=_mk_case(env, steps), impl=stream.strip_py(res), oracle=orc, meta=meta,
+                nontrivial=bool(meta["nodd"] == 3), op="network", triggers=[])
+
+
 def gen_cases(seed, chunk, n, tier):
     rng = random.Random(seed * 7919 + chunk * 104729 + 4)
-    out = []
+    out = [rebuild_case(rng) for _ in range(max(1, n // 12))]
     for _ in range(max(1, n // 5)):
         sym = rng.choice(gen.SYMS)
         static = rng.random() < 0.7
